@@ -208,6 +208,7 @@ func c31(r *core.Run) {
 	}
 	r.Floor("C31.W1", "stores to retrieveChainTraffic", nw, 2)
 	c31Resets(r, funcs)
+	c31ReportsAgree(r)
 	c31CashedPersisted(r, funcs)
 }
 
